@@ -33,7 +33,7 @@ Lemma init_cell_In e : (e < k)%nat -> In (si st e, sj st e) el.
 Proof. intros He. rewrite init_cell. apply nth_In. rewrite <- init_k. exact He. Qed.
 
 Lemma init_inv :
-  (src <> ELall -> (forall x y, R x y = R y x) /\ (forall x, R x x = 0)) ->
+  (src <> ELall -> forall x y, R x y = R y x) ->
   Inv (match src with ELall => false | _ => true end) n k st.
 Proof.
   intros Hpre.
@@ -50,13 +50,11 @@ Proof.
     + intros [E1 E2]. apply (Hdist e e' He He' Hne). congruence.
     + intros U [E1 E2].
       destruct (Hcell e He) as (_ & Hnz & K1). destruct (Hcell e' He') as (_ & Hnz' & K2).
-      destruct src; try discriminate; cbn [el_keep fst snd] in K1, K2; destruct Hpre as [_ Hd]; try discriminate.
-      * apply Nat.leb_le in K1. apply Nat.leb_le in K2.
-        assert (si st e = sj st e) by lia. apply Hnz. rewrite H. apply Hd.
-      * apply Nat.ltb_lt in K1. apply Nat.ltb_lt in K2. lia.
-  - intros U e He Ed. destruct (Hcell e He) as (_ & Hnz & _). apply Hnz. rewrite Ed.
-    destruct src; try discriminate; destruct Hpre as [_ Hd]; try discriminate; apply Hd.
-  - intros U. rewrite init_R. destruct src; try discriminate; destruct Hpre as [Hs _]; try discriminate; exact Hs.
+      destruct src; try discriminate; cbn [el_keep fst snd] in K1, K2;
+        apply Nat.ltb_lt in K1; apply Nat.ltb_lt in K2; lia.
+  - intros U e He Ed. destruct (Hcell e He) as (_ & _ & K1).
+    destruct src; try discriminate; cbn [el_keep fst snd] in K1; apply Nat.ltb_lt in K1; lia.
+  - intros U. rewrite init_R. destruct src; try discriminate; apply Hpre; discriminate.
 Qed.
 End Init.
 
@@ -114,17 +112,22 @@ Proof.
     inversion H; subst; cbn [r_perm r_trace r_rp r_out r_eff]. exists s0, st0, k, stf, s2. repeat split; auto.
 Qed.
 
+Lemma pre_matrix_sym r n R0 p :
+  (forall x y, R0 x y = R0 y x) -> forall x y, pre_matrix r n R0 p x y = pre_matrix r n R0 p y x.
+Proof.
+  intros Hs. unfold pre_matrix. destruct (is_latt r); [|auto]. apply tab_sym. unfold conj_perm. intros; auto.
+Qed.
 Lemma pre_matrix_und_ok r n R0 p :
   (forall x y, R0 x y = R0 y x) -> (forall x, R0 x x = 0) ->
   (forall x y, pre_matrix r n R0 p x y = pre_matrix r n R0 p y x) /\ (forall x, pre_matrix r n R0 p x x = 0).
 Proof.
-  intros Hs Hd. unfold pre_matrix. destruct (is_latt r); [|auto].
-  split; [apply tab_sym|apply tab_diag0]; unfold conj_perm; intros; auto.
+  intros Hs Hd. split; [apply pre_matrix_sym; exact Hs|].
+  unfold pre_matrix. destruct (is_latt r); [|auto]. apply tab_diag0. unfold conj_perm. intros; auto.
 Qed.
 
 (* the start state of a run satisfies the invariant, whatever the number of edges *)
 Lemma run_init_inv r n R0 p st0 k :
-  (is_und r = true -> (forall x y, R0 x y = R0 y x) /\ (forall x, R0 x x = 0)) ->
+  (is_und r = true -> forall x y, R0 x y = R0 y x) ->
   init_state (if is_und r then ELtril else ELall) n (pre_matrix r n R0 p) = (st0, k) ->
   Inv (is_und r) n k st0 /\ sR st0 = pre_matrix r n R0 p.
 Proof.
@@ -135,7 +138,7 @@ Proof.
   replace (is_und r) with (match src with ELall => false | _ => true end) by (unfold src; destruct (is_und r); reflexivity).
   apply init_inv. intros Hsrc.
   assert (U: is_und r = true) by (unfold src in Hsrc; destruct (is_und r); congruence).
-  destruct (Hpre U) as [Hs Hd]. apply pre_matrix_und_ok; assumption.
+  apply pre_matrix_sym. exact (Hpre U).
 Qed.
 
 (* no edge: `itr *= k` leaves nothing to iterate *)
@@ -144,7 +147,7 @@ Proof. rewrite Nat.mul_0_r. reflexivity. Qed.
 
 Theorem run_routine_good r n R0 itr D s0 res :
   run_routine r n R0 itr D s0 = Done res ->
-  (is_und r = true -> (forall x y, R0 x y = R0 y x) /\ (forall x, R0 x x = 0)) ->
+  (is_und r = true -> forall x y, R0 x y = R0 y x) ->
   let R1 := pre_matrix r n R0 (r_perm res) in
   exists k st,
     r_rp res = sR st /\
@@ -192,17 +195,17 @@ Qed.
 
 Theorem run_partial_good n A B maxswap s0 res :
   run_partial_und n A B maxswap s0 = Done res ->
-  (forall x y, A x y = A y x) -> (forall x, A x x = 0) ->
+  (forall x y, A x y = A y x) ->
   exists k st,
     r_out res = sR st /\ Good true n k A st /\ GoodTrace true n k A (r_trace res) /\
     (maxswap = O -> r_out res = A).
 Proof.
-  intros H Hs Hd.
+  intros H Hs.
   destruct (run_partial_unfold _ _ _ _ _ _ H) as (st0 & k & stf & s2 & Ei & Ek & It & Eo).
   assert (Es: st0 = fst (init_state ELtriu1 n A) /\ k = snd (init_state ELtriu1 n A)) by (rewrite Ei; auto).
   destruct Es as [Es Ekk].
   assert (HI0: Inv true n k st0).
-  { rewrite Es, Ekk. apply (init_inv ELtriu1 n A). intros _. split; assumption. }
+  { rewrite Es, Ekk. apply (init_inv ELtriu1 n A). intros _. exact Hs. }
   assert (HR0: sR st0 = A) by (rewrite Es; reflexivity).
   assert (HG0: Good true n k A st0) by (split; [exact HI0|rewrite HR0; apply Same_refl]).
   exists k, stf. split; [exact Eo|].
@@ -349,7 +352,7 @@ Qed.
 (* ---------- the returned matrix, in the caller's node numbering ---------- *)
 Theorem run_routine_caller r n R0 itr D s0 res :
   run_routine r n R0 itr D s0 = Done res ->
-  (is_und r = true -> (forall x y, R0 x y = R0 y x) /\ (forall x, R0 x x = 0)) ->
+  (is_und r = true -> forall x y, R0 x y = R0 y x) ->
   (is_latt r = true -> Permutation (r_perm res) (seq 0 n)) ->
   (forall x, (x < n)%nat -> outdeg n (r_out res) x = outdeg n R0 x) /\
   (forall y, (y < n)%nat -> indeg n (r_out res) y = indeg n R0 y) /\
